@@ -218,7 +218,7 @@ impl Compiler {
 
         if !has_spread {
             // Fast path: no spreads, use simple CreateArray
-            let start = self.builder.reserve_registers(count as u8)?;
+            let start = self.builder.reserve_registers(count)?;
 
             for (i, elem) in arr.elements.iter().enumerate() {
                 let reg = start + i as u8;
@@ -2132,7 +2132,7 @@ impl Compiler {
             Ok((args_arr, 1, true))
         } else {
             // Fast path: no spreads
-            let args_start = self.builder.reserve_registers(argc as u8)?;
+            let args_start = self.builder.reserve_registers(argc)?;
 
             for (i, arg) in args.iter().enumerate() {
                 let reg = args_start + i as u8;
@@ -2286,7 +2286,7 @@ impl Compiler {
         }
 
         // Reserve registers for all parts
-        let start = self.builder.reserve_registers(total_parts as u8)?;
+        let start = self.builder.reserve_registers(total_parts)?;
 
         let mut reg_idx = 0;
         for (i, quasi) in template.quasis.iter().enumerate() {
@@ -2396,7 +2396,7 @@ impl Compiler {
         // Compile expression arguments
         let exprs_count = tagged.quasi.expressions.len();
         let exprs_start = if exprs_count > 0 {
-            let start = self.builder.reserve_registers(exprs_count as u8)?;
+            let start = self.builder.reserve_registers(exprs_count)?;
             for (i, expr) in tagged.quasi.expressions.iter().enumerate() {
                 self.compile_expression(expr, start + i as u8)?;
             }
@@ -2562,9 +2562,7 @@ impl Compiler {
         // Reserve registers for parameters - they are passed in registers 0, 1, 2...
         // We must reserve these before any other register allocation
         if !params.is_empty() {
-            func_compiler
-                .builder
-                .reserve_registers(params.len() as u8)?;
+            func_compiler.builder.reserve_registers(params.len())?;
         }
 
         // Compile parameter declarations
